@@ -54,6 +54,11 @@ RULE = ('trees first, text second. Quick, exhaustive: all trees of depth <= 1 ov
         'leaf parentheses, blanks, line feeds, function-name case), 3 rotating environments of cell values, '
         '1/50 also through a real workbook. Literals: all texts of length <= 2 (quick) / 3 (thorough) over a '
         '20-character alphabet x 3 contexts, stored number spellings, logicals, error literals. '
+        'References as arguments and operands: 43 formula shapes (cell, range, intersection, range operator, OFFSET / ROW / '
+        'COLUMN / INDEX / INDIRECT forms, calls that return a reference as operand of every operator class and as '
+        'argument of SUM / AVERAGE / MIN / MAX / COUNT / IF / IFERROR / SUMPRODUCT) x 18 sheet names of every legal kind '
+        '(blanks, quotes, brackets, !, %, digits first, address-like, TRUE) x {own sheet, other sheet} x 2 spacings, '
+        'through a real workbook, expected values read off a grid of distinct numbers. '
         'A case = one (tree, rendering, route) evaluation; non-trivial = the tree has an operator or is a '
         'literal check; distinct by construction in the exhaustive part, by text+environment when sampled.')
 BUDGET = {'quick': 8, 'thorough': 150}
